@@ -15,6 +15,7 @@ type propInfo struct {
 	assumptions []string
 	note        string
 	extra       func(cr *checkResult, w *symex.World) // additional phases
+	instance    bool                                  // instance-wise verification of generated mocks (instance.go)
 }
 
 var commonTrusted = []string{
@@ -55,6 +56,10 @@ func checkCmd(args []string) int {
 	cr := newCheckResult(id, tierOf(args[1:]))
 	cr.trusted = append(append([]string{}, commonTrusted...), p.trusted...)
 	cr.assumptions = append(append([]string{}, commonAssumptions...), p.assumptions...)
+	if p.instance {
+		instancePhase(cr, update)
+		return cr.finish(p.note)
+	}
 	w, err := symex.Load(repoDir(), p.patterns, nil)
 	if err != nil {
 		// the tree does not load (does not compile): nothing can be decided
@@ -278,4 +283,15 @@ func init() {
 		},
 		note: "partial: on the real tools/cmd: largestTagSemver returns an upper bound (in semver order) of every full semantic-version tag with the requested major, annotated or lightweight, for every tag sequence (loop invariant over the abstract reference sequence of ForEach); Tag calls createTag only if the requested version is strictly greater than that bound, the work tree status IsClean() and every earlier step succeeded, returns ErrNoNewVersion without tagging otherwise, and reaches no repository mutation itself (effect frame); createTag performs no mutation when DryRun is set and otherwise deletes and creates exactly the full-version tag and the major-version tag on HEAD, twice CreateTag in total; NewTagCmd defines --dry-run with default true and binds it on the viper instance the Tagger reads (finding D13, fixed). Exit statuses of the cobra closure and go-git's own behaviour are outside the check.",
 	})
+	instTrusted := []string{
+		"the corpus /verif/corpus/m/ifaces.go is a sample of interfaces (8 interfaces, 20 methods: 0..3 parameters and results, error first/last/absent, variadic of interface and basic type, function/map/channel/pointer/slice types, two type parameters, embedded interfaces from two packages, unnamed parameters, parameter names that collide with template identifiers); the statement is proved for each generated instance, not for every interface",
+		"the contract of each generated method is instantiated from the SOURCE interface's signature and the property statement by driver/instance.go; the names MFunc, MCalls, ResetMCalls, ResetCalls come from the property, the internal field names calls/lockM from the template (a renaming there shows up as a failed structure obligation, not as a pass)",
+		"a call through a user-supplied function value may do anything (also call the mock again): what must hold is stated at the moment of the forwarding call and about the ghost record of that call",
+		"sync.RWMutex/sync.Mutex follow their documented protocol; lock-discipline meta-theorem: if every access to a location happens while its lock is held (writes under the write lock) there is no data race on it and the critical sections are atomic, so no record is lost or duplicated",
+		"mockery itself (configuration, go/packages, template execution, goimports) runs as a black box to produce the instances; a failure to generate or to type-check the corpus is reported UNDECIDED",
+	}
+	register(&propInfo{id: "C04", instance: true, trusted: instTrusted,
+		note: "instance-wise: for every method of every corpus interface, in the variants {with-resets} and {stub-impl}, the generated method is proved to record exactly one call record holding the arguments in parameter order (earlier records untouched, other methods' records and all Func fields untouched) before forwarding, to forward to MFunc exactly once with exactly the arguments, to return exactly what that call returned, to panic when MFunc is nil (or, with stub-impl, to record and return zero values without any call); MCalls returns the records; ResetMCalls/ResetCalls empty exactly the named records; the struct layout (one Func field with the method's signature, one record slice with one field per parameter of the parameter's type, one RWMutex per method, no further methods) is decided by go/types. A sample over interfaces (the corpus), a proof over values and histories."})
+	register(&propInfo{id: "C05", instance: true, trusted: instTrusted,
+		note: "instance-wise, matryer: every read of a record slice happens under its method's read or write lock and every write under the write lock (guarded-by obligations on each syntactic access), Lock/Unlock/RLock/RUnlock follow the protocol on every path (no self-deadlock, no unlock of an unheld lock), no lock is held when the user's function is called or when a method returns. By the lock-discipline meta-theorem this gives data-race freedom and atomic appends for all schedules. Testify-style mocks: not covered by this check (see DESIGN.md 0)."})
 }
